@@ -221,7 +221,20 @@ def apply_model(sym, n, f, vals, mut_idx, st):
     if p == "std::cmp::PartialOrd::le":
         return V(("not", ("lt", vals[1], vals[0])))
     if p == "std::cmp::Ord::cmp":
+        if vals[0][0] == "tuple" and vals[1][0] == "tuple" and len(vals[0][1]) == len(vals[1][1]) == 2:
+            return V(("then", ("cmp3", vals[0][1][0], vals[1][1][0]), ("cmp3", vals[0][1][1], vals[1][1][1])))
         return V(("cmp3", vals[0], vals[1]))
+    if p in ("std::cmp::Ordering::then_with", "std::cmp::Ordering::then") and len(vals) == 2:
+        # lexicographic composition; the second comparison is pure, so evaluating it eagerly changes nothing
+        first = vals[0]
+        if first[0] == "adt" and first[1] == "Ordering" and first[2] in ("Less", "Greater"):
+            return V(first)
+        if p.endswith("then_with"):
+            out = []
+            for s2, (k2, v2) in sym.apply(vals[1], [], st, n):
+                out.append((s2, (k2, v2 if (first[0] == "adt" and first[2] == "Equal") else ("then", first, v2))))
+            return out
+        return V(vals[1] if (first[0] == "adt" and first[2] == "Equal") else ("then", first, vals[1]))
     if p == "std::cmp::Ordering::is_ne":
         return V(("not", ("eq", vals[0], ("adt", "Ordering", "Equal", ()))))
     if p == "std::cmp::Ordering::is_eq":
